@@ -7,6 +7,7 @@ recorded history.
 -/
 import GemseoVerif.Model.C03
 import GemseoVerif.Lemmas.C03Doe
+import GemseoVerif.Lemmas.C03Term
 import GemseoVerif.Props.C04
 import Mathlib.Data.List.Basic
 import Mathlib.Data.List.Perm.Subperm
@@ -445,6 +446,39 @@ theorem result_total (cfg4 : GV.C04.Cfg) (h : List GV.C04.Entry) (hne : h ≠ []
       refine ⟨s, i, rfl, hi, ?_⟩
       by_contra hc
       rw [List.getElem?_eq_none (Nat.le_of_not_lt hc)] at hge; cases hge
+
+/-! ### Whichever termination criterion fires, `execute` returns a result (translator-fed table)
+
+`Gen/C03Term.lean` is regenerated from /repo on every run: the exception classes of `stop_criteria.py`, the
+classes raised under `algos/`, the `except` clause of `BaseDriverLibrary.execute`. -/
+
+/-- Every exception class raised under `algos/` to stop a run is a subclass of a class caught by the handler of
+    `execute` that builds the early-stopping result. -/
+theorem raised_all_caught : Gen.raised.all (caughtBy Gen.classes Gen.caught) = true := by decide
+
+/-- The handler calls `_get_early_stopping_result`, which returns `_get_result(...)` on every path. -/
+theorem handler_builds_result : Gen.handlerBuildsResult = true := by decide
+
+/-- Every stop reason of the model is carried by a class of the generated table that is actually raised. -/
+theorem term_classes_raised (t : Term) : t.className ∈ Gen.raised := by
+  cases t <;> decide
+
+/-- **`execute` never lets a termination exception escape**: for every stop reason of the model (budget, NaN in a
+    function or in the design variables, time limit, x/f tolerance, KKT), and for every class raised under
+    `algos/` at all, `execute` ends by returning a result; that result is built from the recorded history
+    (`result_total`). -/
+theorem execute_total (c : String) (hc : c ∈ Gen.raised) :
+    executeEnd Gen.classes Gen.caught Gen.handlerBuildsResult (some c) = .result := by
+  have h := List.all_eq_true.mp raised_all_caught c hc
+  simp [executeEnd, h, handler_builds_result]
+
+theorem execute_total_term (t : Term) :
+    executeEnd Gen.classes Gen.caught Gen.handlerBuildsResult (some t.className) = .result :=
+  execute_total _ (term_classes_raised t)
+
+/-- Non-vacuity: the family is not empty, and an exception outside it does propagate. -/
+example : Gen.raised ≠ [] ∧
+    executeEnd Gen.classes Gen.caught Gen.handlerBuildsResult (some "ValueError") = .propagates := by decide
 
 /-! ### Sequential DOE: each distinct sample once, recorded in generation order -/
 
